@@ -307,6 +307,8 @@ PROPS["C08"]["mc"].append(flow_mc("fb", ["{2, 4, 7, 9, 10}", 1, 1, 2, "{1}", "FA
 # skip connections across the flat <-> spatial boundary (a spatial layer directly after a dense layer stores a flat input)
 _c08_skip = flow_mc("skip", ["{2, 3, 5, 8}", 1, 1, 1, "{1}", "FALSE"], ["{1, 2, 3, 4, 5, 6, 7, 8}", 2, 1, 1, "{1}", "FALSE"])
 _c08_skip.pop("require", None)
+PROPS["C08"]["technique"] += (" + block and skip dataflows of MC_Flow (an accepted network never aborts on a shape disagreement) + the reshape state "
+                               "machine ReshapeSM.tla (the flat <-> spatial transitions themselves)")
 PROPS["C08"]["mc"].append(_c08_skip)
 # the flat <-> spatial transitions themselves: Tensor::flatten / reshape / get_triple as a state machine (ReshapeSM.tla)
 PROPS["C08"]["mc"].append({"module": "MC_C14", "consts": {"quick": {"MaxDim": 3, "MaxCount": 8, "Depth": 2},
@@ -500,6 +502,8 @@ PROPS["C12"]["technique"] += " + TLAPS proof of ordered collection for an unboun
 PROPS["C04"]["mc"].append({"module": "MC_C03", "consts": {"quick": {"MaxSteps": 2, "MaxRounds": 2, "Slots": "{1, 2, 3}", "LongRuns": "{}"},
                                                            "thorough": {"MaxSteps": 3, "MaxRounds": 3, "Slots": "{1, 2, 3}", "LongRuns": "{120}"}},
                            "workers": 8, "timeout": {"quick": 900, "thorough": 3600}})
+PROPS["C04"]["technique"] += (" + the optimizer case table of Optimizer.tla at small bounds (what 'one optimizer step' is) + twins derived from the "
+                               "specification (one-epoch SGDM = SGD, a one-loop block trains like its plain layers)")
 PROPS["C04"]["extra_tools"] = [_ORDER]
 PROPS["C05"]["extra_tools"] = [_ORDER]
 PROPS["C04"]["technique"] += " + TLAPS proof that the reduction of a group is the ordered sum for unbounded group length and workers (OrderProof.tla)"
